@@ -25,6 +25,7 @@ func init() {
 }
 
 func runC07(c *core.Ctx) {
+	c07NewCodeFlagOnlySet(c)
 	const pkg = "data/state"
 	numRef := c.P.Field(pkg, "CodeEntry", "NumReferences")
 	if numRef == nil {
@@ -302,4 +303,38 @@ func c07SameCodeAndErrors(c *core.Ctx) {
 	_ = get
 	c.Floor("C07/code-entry-read-errors-propagate", 2)
 	c.Floor("C07/same-code-leaves-entries-alone", 2)
+}
+
+// c07NewCodeFlagOnlySet: an account instance on which SetCode was called keeps asking for the code
+// bookkeeping on every later save - the reference counts are rebuilt from the stored record each
+// time, which is what keeps them right when the entry was released in between (revert, removal,
+// another instance). Nothing in the package clears the flag.
+func c07NewCodeFlagOnlySet(c *core.Ctx) {
+	const pkg = "data/state"
+	fld := c.P.Field(pkg, "baseAccount", "hasNewCode")
+	if fld == nil {
+		c.Undecided("anchor", "baseAccount.hasNewCode", 0, "field not found")
+		return
+	}
+	sets, clears := 0, ""
+	for _, fn := range c.P.FuncsOfPkg(pkg) {
+		core.Instrs(fn, func(in ssa.Instruction) {
+			st, ok := in.(*ssa.Store)
+			if !ok {
+				return
+			}
+			fa, ok := st.Addr.(*ssa.FieldAddr)
+			if !ok || core.FieldOfAddr(fa) != fld {
+				return
+			}
+			if b, isC := core.ConstBool(st.Val); isC && b {
+				sets++
+				return
+			}
+			clears = fname(fn) + " at " + c.P.Pos(st.Pos())
+		})
+	}
+	c.Check(sets >= 1 && clears == "", "C07/new-code-flag-only-set", "baseAccount.hasNewCode", 0,
+		"hasNewCode is only ever set to true",
+		"hasNewCode is assigned something other than true ("+clears+"): a later save of the same account instance skips the code bookkeeping although the entry may have been released meanwhile - the account then refers to a code hash with no entry, or the entry's reference count is too low")
 }
